@@ -53,6 +53,7 @@ def label_to_coq(l):
     if l[0] == "A": return "AckMsg %s %s" % (l[1:-1], p(l[-1]))
     if l == "X": return "Purge"
     if l == "L": return "LoaderTurn"
+    if l == "Li": return "LoaderIterRace"
     if l == "Kp": return "PersistTick true"
     if l == "Kt": return "PersistTick false"
     if l[0] == "R": return "LoaderRace %s %s" % (l[1:-1], p(l[-1]))
@@ -174,10 +175,12 @@ def judge(c, drained=None):
             if c.durable and any(n in pers for n in outst):
                 trig.add("F41u")     # the purge erases the store entries of unsettled persistent deliveries: visible at the next restart
             spec = []
-        elif l == "L":
+        elif l in ("L", "Li"):
             proceeds = sw_before and ring_before < c.maxram // 2
             if proceeds and any(n > lm_before for n in pendP | pendT):
                 trig.add("F24a")
+            if proceeds and l == "Li":
+                trig.add("F24i")
         elif l[0] == "R":
             if sw_before and ring_before < c.maxram // 2:
                 trig.add("F24r")
@@ -326,6 +329,7 @@ def run(res):
                         "no purge while the queue is swapped to disk (F24 otherwise)",
                         "label lists with restarts: durable queue; no purge while a persistent message is delivered and unsettled (F41-unsettled otherwise)",
                         "no push lands between the iterations and the final flag write of a proceeding loader turn (the loader takes no lock: F24-race otherwise)",
+                        "the data race on lastIteratedMsgID between the two iteration goroutines of a loader turn does not fire (F24-iter otherwise)",
                         "the engine implements IterateByPrefixFrom / DeleteByPrefix / KeysByPrefixCount (badger does; the buntdb wrapper has stubs: F23)",
                         "client well-formedness: ids positive and increasing (GenerateSeq), only delivered unsettled messages are requeued or acked",
                         "pops are compared only when the ring is non-empty or nothing waits on disk (a pop on an empty ring is not a client-visible delivery attempt)"]
@@ -350,19 +354,46 @@ def run(res):
                     if l and not l.startswith("#"):
                         cases.append(Case(vlib.harness(exe, ["replay", l]).strip()))
     ncorpus = len(cases)
-    args = ["run", "-seed", str(res.seed), "-n", "400" if quick else "4000", "-groups", "45" if quick else "500", "-len", "40" if quick else "70",
+    args = ["run", "-seed", str(res.seed), "-n", "400" if quick else "3600", "-groups", "45" if quick else "420", "-len", "40" if quick else "70",
             "-exhaustive", "2" if quick else "4", "-restarts"]
     cases += [Case(l) for l in vlib.harness(exe, args).splitlines() if l.strip()]
     # neighbour queues ("p", "q2") share the stores: a scan or count running past the queue's prefix becomes visible
-    args = ["run", "-seed", str(int(res.seed) + 1), "-n", "60" if quick else "600", "-groups", "0", "-len", "40", "-restarts", "-neighbours"]
+    args = ["run", "-seed", str(int(res.seed) + 1), "-n", "60" if quick else "400", "-groups", "0", "-len", "40", "-restarts", "-neighbours"]
     cases += [Case(l) for l in vlib.harness(exe, args).splitlines() if l.strip()]
     # a slice over the REAL engine wrapper storage.NewBadger (temp dir, removed afterwards): storage_badger.go in the loop
     bdir = vlib.workdir("C19-badger")
     BADGER_DIR[0] = bdir
-    args = ["run", "-seed", str(int(res.seed) + 2), "-n", "45" if quick else "500", "-groups", "3" if quick else "30", "-len", "30", "-restarts", "-neighbours",
+    args = ["run", "-seed", str(int(res.seed) + 2), "-n", "45" if quick else "300", "-groups", "3" if quick else "12", "-len", "30", "-restarts", "-neighbours",
             "-engine", "badger", "-dir", bdir]
     cases += [Case(l) for l in vlib.harness(exe, args, timeout=1500).splitlines() if l.strip()]
     bad, hyps = eval_cases(cases, "C19") if pr["runners_ok"] else (None, [None] * len(cases))
+    # A disagreement or deviation counts only if it reproduces.  The one known source of nondeterminism is the data race on
+    # lastIteratedMsgID inside a loader turn (finding F24-iter): the harness orders the two iterations persistent-then-transient,
+    # but it cannot order the persistent goroutine's TEST before the transient iteration; on a loaded machine the race fires now and then.
+    suspects = set(bad or [])
+    for i, c in enumerate(cases):
+        if judge(c)[0] is not None and not judge(c)[1]:
+            suspects.add(i)
+    flaky = []
+    for i in sorted(suspects):
+        c = cases[i]
+        if c.broken:
+            continue
+        for attempt in range(2):
+            c2 = Case(vlib.harness(exe, c.replay_args() + [c.script()]).strip())
+            if c2.broken or (c2.obs, c2.final) != (c.obs, c.final):
+                c2.group, c2.tags = c.group, c.tags
+                flaky.append(dict(case=c.script(), first_run=c.line[:2000], rerun=c2.line[:2000]))
+                cases[i] = c2
+                break
+    if flaky and bad is not None:
+        redo = [i for i in sorted(suspects) if any(f["case"] == cases[i].script() for f in flaky)]
+        bad2, hyps2 = eval_cases([cases[i] for i in redo], "C19-rerun")
+        bad = sorted((set(bad) - set(redo)) | {redo[j] for j in bad2})
+        for j, i in enumerate(redo):
+            hyps[i] = hyps2[j]
+    res.cov["nondeterministic_cases_rerun"] = {"count": len(flaky), "samples": flaky[:3],
+                                               "cause": "lastIteratedMsgID data race inside mayBeLoadFromStorage (finding F24-iter) firing spontaneously under load"}
     # judge every implementation trace
     unknown, known_dev, overflowed, hyp_and_overflow, theorem_vs_impl = [], {}, 0, 0, []
     for i, c in enumerate(cases):
